@@ -32,6 +32,9 @@ type muxPeer struct {
 	stop    chan struct{}
 	replies int
 	split   bool
+	// eager: a channel setup is acknowledged while the client is still inside the Write of its setup
+	// packet, and the Write returns only after the reader goroutine had time to route the acknowledgement
+	eager bool
 }
 
 func (p *muxPeer) onWrite(b []byte) {
@@ -46,6 +49,9 @@ func (p *muxPeer) onWrite(b []byte) {
 		p.buf = p.buf[hl:]
 		p.tr.Emit(Ev{"ev": "PeerSaw", "chan": ch, "typ": typ, "nr": nr, "n": hl - 8, "eom": st&1 == 1})
 		switch {
+		case typ == 8 && p.eager:
+			p.mc.Feed(mkPacket(11, 1, ch, 0, nil))
+			time.Sleep(3 * time.Millisecond)
 		case typ == 8: // TDS_BUF_SETUP: acknowledge with a header-only PROTACK packet
 			p.pending[ch] = append(p.pending[ch], mkPacket(11, 1, ch, 0, nil))
 		case typ == 9: // TDS_BUF_CLOSE
@@ -112,6 +118,8 @@ func (p *muxPeer) feeder() {
 	}
 }
 
+var muxEager bool
+
 func muxScenario(tr *Tracer, rng *rand.Rand, nchan, msgs, replies, procs int, unknown int) {
 	old := runtime.GOMAXPROCS(procs)
 	defer runtime.GOMAXPROCS(old)
@@ -124,7 +132,7 @@ func muxScenario(tr *Tracer, rng *rand.Rand, nchan, msgs, replies, procs int, un
 		panic(err)
 	}
 	peer := &muxPeer{mc: mc, tr: tr, rng: rand.New(rand.NewSource(rng.Int63())), pending: map[int][][]byte{},
-		wake: make(chan struct{}, 1), stop: make(chan struct{}), replies: replies, split: true}
+		wake: make(chan struct{}, 1), stop: make(chan struct{}), replies: replies, split: true, eager: muxEager}
 	mc.onWrite = peer.onWrite
 	go peer.feeder()
 	ch0, err := conn.NewChannel()
@@ -275,6 +283,7 @@ func muxMain(args []string) error {
 			nchan = 16
 		}
 		procs := []int{1, 2, 4, 16}[rng.Intn(4)]
+		muxEager = i == 1 || rng.Intn(3) == 0
 		muxScenario(tr, rng, nchan, 2+rng.Intn(4), 1+rng.Intn(3), procs, rng.Intn(3))
 	}
 	return tr.Close()
